@@ -274,3 +274,28 @@ Fixpoint table_get {V : Type} (t : list (list nat * V)) (k : list nat) (d : V) :
 (* observed iteration orders of the `collision` sets: keyed by the colliding atoms in dict order *)
 Fixpoint ztable_get (t : list (list Z * list Z)) (k : list Z) : list Z :=
   match t with [] => k | (k', v) :: r => if list_eqb Z.eqb k k' then v else ztable_get r k end.
+
+(* ====================================================================================================
+   Stereo of the atoms the template does not touch (BaseReactor._patcher):
+       natoms[n] = a = sa.copy(hydrogens=True)                       (copy: no stereo label)
+       if sa.stereo is not None:
+           if n in structure.stereogenic_tetrahedrons: a._stereo = sa.stereo      (stored as is)
+           else: stereo_atoms.append(n)                                           (allenes: translated later)
+   stereogenic_tetrahedrons[n] = tuple(x for x in bonds[n] if atoms[x] != H): the non-hydrogen neighbours in dict order.
+   `isH` (atoms[x] == H) is a parameter.  sth = the keys of structure.stereogenic_tetrahedrons.
+   ==================================================================================================== *)
+Definition th_env (isH : Z -> bool) (g : mol) (n : Z) : list Z := filter (fun x => negb (isH x)) (nbr_ids g n).
+(* the label the loop stores for an untouched atom; None also stands for "queued in stereo_atoms" *)
+Definition untouched_label (sth : list Z) (g : mol) (n : Z) : option bool :=
+  match atom_of g n with
+  | Some sa => if zmem n sth then a_stereo sa else None
+  | None => None
+  end.
+(* runner: the label of the real product (after fix_stereo, which can only drop it) against the stored one *)
+Definition label_kept_eqb (model real : option bool) : bool :=
+  match real with None => true | Some r => option_eqb Bool.eqb model (Some r) end.
+(* runner: per untouched stereogenic tetrahedron of the input: (number, observed stereogenic_tetrahedrons[n] of the input,
+   label of the real product); hs = the atoms of the input that are hydrogens (atoms[x] == H) *)
+Definition stereo_case_eqb (sth hs : list Z) (g : mol) (obs : list (Z * list Z * option bool)) : bool :=
+  forallb (fun o => list_eqb Z.eqb (th_env (fun x => zmem x hs) g (fst (fst o))) (snd (fst o)) &&
+                    label_kept_eqb (untouched_label sth g (fst (fst o))) (snd o)) obs.
